@@ -8,6 +8,11 @@
 //	{"k":"prop","recv":[...]}                                          ->length property
 //	{"k":"str","m":"substring","srecv":"hello","args":[E...]}         string method
 //	{"k":"table"}                                                      method table by reflection
+//	{"k":"script","form":F,"m":..,"recv":[..],"args":[..],"cb":..,"named":[[name,i]..]}
+//	    the same call written as SCRIPT TEXT, parsed and run by the interpreter; F is the receiver /
+//	    argument form: var ($a->m(..)), prop ($o->a->m(..)), elem ($w[0]->m(..)), lit (([..])->m(..)),
+//	    spread ($a->m(...[..])), named ($a->m(args.., name: v, ..): "named" lists {"n":name,"v":E} in the order written;
+//	    the answer carries "pn": the parameter names and kinds of the real method object)
 //
 // E = null | true | false | {"i":"5"} | {"s":"x"} | [E...] | {"f":"<float64 bits>"} | {"o":"<n>"} (an object, one per n)
 // every answer carries "atoms": the AsString text of each float / object that occurs in the case
@@ -30,6 +35,7 @@ import (
 
 	"github.com/php-any/origami/data"
 	"github.com/php-any/origami/node"
+	"github.com/php-any/origami/parser"
 )
 
 type Call struct {
@@ -46,6 +52,13 @@ type Case struct {
 	SRecv string            `json:"srecv"`
 	Args  []json.RawMessage `json:"args"`
 	Cb    string            `json:"cb"`
+	Form  string            `json:"form"`
+	Named []NamedArg        `json:"named"`
+}
+
+type NamedArg struct {
+	N string          `json:"n"`
+	V json.RawMessage `json:"v"`
 }
 
 type Obs struct {
@@ -56,6 +69,8 @@ type Obs struct {
 	Table interface{}       `json:"table,omitempty"`
 	Steps []Obs             `json:"steps,omitempty"`
 	Atoms map[string]string `json:"atoms,omitempty"`
+	Src   string            `json:"src,omitempty"`
+	Pn    [][2]string       `json:"pn,omitempty"`
 }
 
 var (
@@ -68,26 +83,45 @@ var (
 	cbs       = map[string]data.Value{}
 )
 
-const setup = `
-class C15P { public $p = 0; }
-$cb_pair = function($e, $i) { return [$e, $i]; };
-$cb_idx = function($e, $i) { return $i; };
-$cb_idxeven = function($e, $i) { return $i % 2 == 0; };
-$cb_eq2 = function($e) { return $e === 2; };
-$cb_ge1 = function($e, $i) { return $i >= 1; };
-$cb_dup = function($e, $i) { return [$e, $e]; };
-$cb_self = function($e) { return $e; };
-$cb_len = function($e, $i, $a) { return $a->length; };
-$cb_false = function($e) { return false; };
-$cb_true = function($e) { return true; };
-$cb_acc = function($acc, $e, $i) { return [$acc, $e, $i]; };
-$cb_acclen = function($acc, $e, $i, $a) { return [$acc, $a->length]; };
-$cb_t1 = function($e, $i) { if ($i == 1) { throw new Exception("boom"); } return $i >= 2; };
-$cb_t2zero = function($e, $i) { if ($i == 2) { throw new Exception("boom"); } return $i == 0; };
-$cb_t2pair = function($e, $i) { if ($i == 2) { throw new Exception("boom"); } return [$e, $i]; };
-$cb_push = function($e, $i) { c15_push(); return $i; };
-$cb_pusheq1 = function($e, $i) { c15_push(); return $i == 1; };
-`
+// the closures, by name: the setup script binds each to $cb_<name> (API-driven cases pass that
+// value), script cases inline the same source text as a closure literal
+var cbSrc = map[string]string{
+	"pair":     `function($e, $i) { return [$e, $i]; }`,
+	"idx":      `function($e, $i) { return $i; }`,
+	"idxeven":  `function($e, $i) { return $i % 2 == 0; }`,
+	"eq2":      `function($e) { return $e === 2; }`,
+	"ge1":      `function($e, $i) { return $i >= 1; }`,
+	"dup":      `function($e, $i) { return [$e, $e]; }`,
+	"self":     `function($e) { return $e; }`,
+	"len":      `function($e, $i, $a) { return $a->length; }`,
+	"false":    `function($e) { return false; }`,
+	"true":     `function($e) { return true; }`,
+	"local":    `function($e) { if (!isset($c)) { $c = 0; } $c = $c + 1; return $c; }`,
+	"localacc": `function($e, $i) { $k = $k ?? 10; $k = $k + $i; return $k; }`,
+	"default":  `function($e, $i = 7, $arr = null, $extra = 5) { return [$i, $extra]; }`,
+	"accdef":   `function($acc, $e, $i = 7, $a = null, $extra = 5) { $t = $t ?? 0; $t = $t + 1; return [$acc, $e, $extra, $t]; }`,
+	"acc":      `function($acc, $e, $i) { return [$acc, $e, $i]; }`,
+	"acclen":   `function($acc, $e, $i, $a) { return [$acc, $a->length]; }`,
+	"t1":       `function($e, $i) { if ($i == 1) { throw new Exception("boom"); } return $i >= 2; }`,
+	"t2zero":   `function($e, $i) { if ($i == 2) { throw new Exception("boom"); } return $i == 0; }`,
+	"t2pair":   `function($e, $i) { if ($i == 2) { throw new Exception("boom"); } return [$e, $i]; }`,
+	"push":     `function($e, $i) { c15_push(); return $i; }`,
+	"pusheq1":  `function($e, $i) { c15_push(); return $i == 1; }`,
+}
+
+func setupSrc() string {
+	var b strings.Builder
+	b.WriteString("class C15P { public $p = 0; }\nclass C15H { public $a = null; }\n")
+	names := make([]string, 0, len(cbSrc))
+	for n := range cbSrc {
+		names = append(names, n)
+	}
+	sort.Strings(names)
+	for _, n := range names {
+		b.WriteString("$cb_" + n + " = " + cbSrc[n] + ";\n")
+	}
+	return b.String()
+}
 
 // c15_push: a native function the mutating callbacks call: pushes 99 onto the receiver of the
 // method call in progress, through the receiver's real push method
@@ -104,6 +138,195 @@ func (pushFn) Call(c data.Context) (data.GetValue, data.Control) {
 func (pushFn) GetName() string               { return "c15_push" }
 func (pushFn) GetParams() []data.GetValue    { return nil }
 func (pushFn) GetVariables() []data.Variable { return nil }
+
+// ---- script-driven calls
+var (
+	sparser *parser.Parser
+	svm     interface {
+		CreateContext([]data.Variable) data.Context
+	}
+	emitted  [][2]data.Value
+	caughtAt []data.Value
+)
+
+type emitFn struct{}
+
+func (emitFn) Call(c data.Context) (data.GetValue, data.Control) {
+	r, _ := c.GetIndexValue(0)
+	a, _ := c.GetIndexValue(1)
+	emitted = append(emitted, [2]data.Value{r, a})
+	return nil, nil
+}
+func (emitFn) GetName() string { return "c15_emit" }
+func (emitFn) GetParams() []data.GetValue {
+	return []data.GetValue{node.NewParameter(nil, "r", 0, nil, nil), node.NewParameter(nil, "a", 1, nil, nil)}
+}
+func (emitFn) GetVariables() []data.Variable {
+	return []data.Variable{node.NewVariable(nil, "r", 0, data.NewBaseType("mixed")), node.NewVariable(nil, "a", 1, data.NewBaseType("mixed"))}
+}
+
+type caughtFn struct{}
+
+func (caughtFn) Call(c data.Context) (data.GetValue, data.Control) {
+	a, _ := c.GetIndexValue(0)
+	caughtAt = append(caughtAt, a)
+	return nil, nil
+}
+func (caughtFn) GetName() string { return "c15_caught" }
+func (caughtFn) GetParams() []data.GetValue {
+	return []data.GetValue{node.NewParameter(nil, "a", 0, nil, nil)}
+}
+func (caughtFn) GetVariables() []data.Variable {
+	return []data.Variable{node.NewVariable(nil, "a", 0, data.NewBaseType("mixed"))}
+}
+
+// literal source text of an element (null, bools, ints, strings without quote characters, arrays)
+func lit(raw json.RawMessage) (string, bool) {
+	s := strings.TrimSpace(string(raw))
+	switch {
+	case s == "null" || s == "true" || s == "false":
+		return s, true
+	case strings.HasPrefix(s, "["):
+		var items []json.RawMessage
+		if err := json.Unmarshal(raw, &items); err != nil {
+			return "", false
+		}
+		parts := make([]string, len(items))
+		for i, it := range items {
+			t, ok := lit(it)
+			if !ok {
+				return "", false
+			}
+			parts[i] = t
+		}
+		return "[" + strings.Join(parts, ", ") + "]", true
+	}
+	var o map[string]string
+	if err := json.Unmarshal(raw, &o); err != nil {
+		return "", false
+	}
+	if v, ok := o["i"]; ok {
+		if v == "-9223372036854775808" {
+			return "(-9223372036854775807 - 1)", true
+		}
+		if strings.HasPrefix(v, "-") {
+			return "(" + v + ")", true
+		}
+		return v, true
+	}
+	if v, ok := o["s"]; ok {
+		if strings.ContainsAny(v, "'\\") {
+			return "", false
+		}
+		return "'" + v + "'", true
+	}
+	return "", false
+}
+
+func runScript(c Case) (o Obs) {
+	recvLit, ok := lit(json.RawMessage("[" + joinRaw(c.Recv) + "]"))
+	if !ok {
+		return Obs{Out: "skip", Msg: "receiver has no literal"}
+	}
+	args := make([]string, len(c.Args))
+	for i, a := range c.Args {
+		t, ok := lit(a)
+		if !ok {
+			return Obs{Out: "skip", Msg: "argument has no literal"}
+		}
+		args[i] = t
+	}
+	var list []string
+	if c.Cb != "" {
+		src, ok := cbSrc[c.Cb]
+		if !ok {
+			return Obs{Out: "panic", Msg: "no callback " + c.Cb}
+		}
+		list = append(list, src)
+	}
+	var pre, recv string
+	switch c.Form {
+	case "var", "spread", "named":
+		pre, recv = "$a = "+recvLit+";", "$a"
+	case "prop":
+		pre, recv = "$o = new C15H(); $o->a = "+recvLit+";", "$o->a"
+	case "elem":
+		pre, recv = "$w = ["+recvLit+", 0];", "$w[0]"
+	case "lit":
+		pre, recv = "", "$a"
+	default:
+		return Obs{Out: "panic", Msg: "bad form " + c.Form}
+	}
+	switch c.Form {
+	case "spread":
+		list = append(list, "...["+strings.Join(args, ", ")+"]")
+	case "named":
+		list = append(list, args...)
+		for _, n := range c.Named {
+			t, ok := lit(n.V)
+			if !ok {
+				return Obs{Out: "skip", Msg: "named argument has no literal"}
+			}
+			list = append(list, n.N+": "+t)
+		}
+	default:
+		list = append(list, args...)
+	}
+	call := recv + "->" + c.M + "(" + strings.Join(list, ", ") + ")"
+	var src string
+	if c.Form == "lit" {
+		// a literal receiver: no variable holds it, only the result is observed (after = the literal)
+		src = "$a = " + recvLit + ";\ntry { $r = (" + recvLit + ")->" + c.M + "(" + strings.Join(list, ", ") + "); c15_emit($r, $a); } catch (\\Throwable $e) { c15_caught($a); }\n"
+	} else {
+		src = pre + "\ntry { $r = " + call + "; c15_emit($r, " + recv + "); } catch (\\Throwable $e) { c15_caught(" + recv + "); }\n"
+	}
+	emitted, caughtAt, current = nil, nil, nil
+	defer func() {
+		if r := recover(); r != nil {
+			o = Obs{Out: "panic", Msg: fmt.Sprint(r), Src: src}
+		}
+	}()
+	prog, acl := sparser.ParseString(src, "c15s.zy")
+	if acl != nil {
+		return Obs{Out: "parse", Msg: acl.AsString(), Src: src}
+	}
+	sc := svm.CreateContext(sparser.GetVariables())
+	if _, ctl := prog.GetValue(sc); ctl != nil {
+		return Obs{Out: "panic", Msg: "control escaped try/catch: " + ctl.AsString(), Src: src}
+	}
+	var pn [][2]string
+	if c.Form == "named" {
+		// the parameter names and kinds of the real method object
+		if m, ok := data.NewArrayValue(nil).(*data.ArrayValue).GetMethod(c.M); ok {
+			for _, p := range m.GetParams() {
+				name := "?"
+				if n, ok := p.(data.GetName); ok {
+					name = n.GetName()
+				}
+				kind := "S"
+				if _, ok := p.(*data.ParametersTODO); ok {
+					kind = "V"
+				}
+				pn = append(pn, [2]string{name, kind})
+			}
+		}
+	}
+	if len(caughtAt) == 1 && len(emitted) == 0 {
+		return Obs{Out: "throw", After: enc(caughtAt[0]), Src: src, Pn: pn}
+	}
+	if len(emitted) != 1 || len(caughtAt) != 0 {
+		return Obs{Out: "panic", Msg: fmt.Sprintf("emitted %d caught %d", len(emitted), len(caughtAt)), Src: src}
+	}
+	return Obs{Out: "val", Res: enc(emitted[0][0]), After: enc(emitted[0][1]), Src: src, Pn: pn}
+}
+
+func joinRaw(l []json.RawMessage) string {
+	parts := make([]string, len(l))
+	for i, r := range l {
+		parts[i] = string(r)
+	}
+	return strings.Join(parts, ",")
+}
 
 func dec(raw json.RawMessage) data.Value {
 	s := strings.TrimSpace(string(raw))
@@ -269,6 +492,8 @@ func runCase(c Case) (o Obs) {
 	switch c.K {
 	case "table":
 		return table()
+	case "script":
+		return runScript(c)
 	case "arr":
 		vs := make([]data.Value, len(c.Recv))
 		for i, r := range c.Recv {
@@ -351,7 +576,14 @@ func main() {
 		fmt.Fprintln(os.Stderr, "setup: c15_push:", ctl.AsString())
 		os.Exit(2)
 	}
-	prog, acl := ps.ParseString(setup, "c15.zy")
+	for _, f := range []data.FuncStmt{emitFn{}, caughtFn{}} {
+		if ctl := vm.AddFunc(f); ctl != nil {
+			fmt.Fprintln(os.Stderr, "setup:", f.GetName(), ctl.AsString())
+			os.Exit(2)
+		}
+	}
+	sparser, svm = ps, vm
+	prog, acl := ps.ParseString(setupSrc(), "c15.zy")
 	if acl != nil {
 		fmt.Fprintln(os.Stderr, "setup parse:", acl.AsString())
 		os.Exit(2)
